@@ -102,6 +102,26 @@ def gen_case(r, cid, cls, uni=False):
         if r.random() < 0.5:
             ops += [["set", hx(r.choice(pool)), hx(b"v2")], ["flush"], ["split", hx(r.choice([b"k0", b"k15", b"k55", b"k75"]))], ["bget", [hx(x) for x in pool]]]
         return {"id": cid, "class": cls, "mode": "txn", "splits": [hx(x) for x in splits], "pre": pre, "ops": ops, "end": end, "settle_ms": 2500}
+    if cls == "refuse":
+        # the store refuses exactly one (or two) of the batches of a flush with a KEY error (assertion failed / write conflict /
+        # already exists) while the sibling batches are applied: the flush must fail, the transaction must not commit
+        pool = KEYS[:10]
+        splits = sorted(set(r.sample(pool[1:9], r.randrange(1, 4))))       # >= 2 regions
+        ops, nfl = [], r.randrange(1, 4)
+        for f in range(nfl):
+            for k in r.sample(pool, r.randrange(5, 9)):
+                ops.append(["del", hx(k)] if r.random() < 0.15 else ["set", hx(k), hx(bytes([114, 49 + f, r.randrange(48, 58)]))])
+            if r.random() < 0.4:
+                ops.append(["get", hx(r.choice(pool))])
+            ops.append(["flush"])
+        if r.random() < 0.4:
+            ops.append(["set", hx(r.choice(pool)), hx(b"tail")])
+        nrpc = (len(splits) + 1) * nfl
+        refuse = [[r.randrange(1, nrpc + 2), r.choice(["assertion", "assertion", "assertion", "conflict", "exists"])]]
+        if r.random() < 0.25:
+            refuse.append([refuse[0][0] + 1, r.choice(["assertion", "conflict"])])
+        return {"id": cid, "class": cls, "mode": "txn", "splits": [hx(x) for x in splits], "pre": pre, "ops": ops, "end": end,
+                "settle_ms": 2500, "flush_refuse": refuse}
     if cls == "flags":
         # presumeKeyNotExists on fresh keys: Op_Insert; inserted and deleted in the same generation: Op_CheckNotExists (no lock);
         # the smallest key of the first generation is such a key, so the primary must be the next one
@@ -203,7 +223,7 @@ def with_cancel(r, c):
     return c
 
 
-def reference(case):
+def reference(case, res=None):
     """python reference of one transaction, independent of the Coq model. Returns a dict:
     reads   per get/bget op the expected result (None = not checked: after a failed flush)
     operr   per op: True = must report an error, False = must not, None = unspecified
@@ -212,6 +232,10 @@ def reference(case):
     failed  a flush is expected to be rejected by the store (insert of an existing key)"""
     pre = {k: v for k, v in case["pre"]}
     inject = bool(case.get("fail_flush_from"))
+    # store-side refusal of single batches (flush_refuse): which op saw one is observed (it depends on how the flush was batched)
+    rs0 = (res or {}).get("results") or []
+    refused_ops = {i for i, r in enumerate(rs0) if r.get("refused")}
+    end_refused = bool((res or {}).get("end_refused"))
     truth, reads, operr = {}, [], []
     gens, sent, cur, cur_ins = {}, [], {}, set()
     gops = {}     # generation -> {key: op} with the flush callback's table (Put 0, Del 1, Insert 4, CheckNotExists 6)
@@ -235,7 +259,7 @@ def reference(case):
             failed = True
         cur, cur_ins = {}, set()
 
-    for op in case["ops"]:
+    for opi, op in enumerate(case["ops"]):
         if op[0] in ("set", "insert"):
             truth[op[1]] = op[2]; cur[op[1]] = op[2]
             if op[0] == "insert":
@@ -258,16 +282,22 @@ def reference(case):
             operr.append(None if failed or inject else False)
         elif op[0] == "flush":
             do_flush()
+            if opi in refused_ops:
+                failed = True           # a refused batch fails the flush although its siblings were applied
             operr.append(None if inject else failed)
         elif op[0] == "flushnw":
             was = failed
             do_flush()
+            if opi in refused_ops:
+                failed = True
             operr.append(None if inject or failed != was or failed else False)
         else:
             operr.append(False)
     enderr = None
     if case["end"] == "commit":
         do_flush()
+        if end_refused:
+            failed = True
         enderr = None if inject else failed
     elif case["end"] == "rollback":
         enderr = False
@@ -279,7 +309,7 @@ def reference(case):
             final[k] = val
     keys = set(pre) | set(truth)
     return {"reads": reads, "operr": operr, "enderr": enderr, "final": {k: final.get(k) for k in keys}, "gens": gens,
-            "sent": sent, "gops": gops, "failed": failed, "inject": inject, "final_checked": not (inject and case["end"] == "commit")}
+            "sent": sent, "gops": gops, "failed": failed, "refused_ops": refused_ops, "end_refused": end_refused, "inject": inject, "final_checked": not (inject and case["end"] == "commit")}
 
 
 def model_lines(case, ref, res=None):
@@ -297,9 +327,9 @@ def model_lines(case, ref, res=None):
         i0 = ref["operr"].index(True)
         tm_at_fail = i0 < len(rs) and rs[i0].get("ttl_running") is True
 
-    def fl(wait):
+    def fl(wait, opi=None):
         nonlocal failed, cur_ins
-        rejects = (not failed) and (any(k in pre for k in cur_ins) or (bool(mcur) and not mstate["p"] and all(k in cur_ins and not val for k, val in mcur.items())))
+        rejects = (not failed) and ((opi in ref["refused_ops"]) or (opi is None and ref["end_refused"]) or any(k in pre for k in cur_ins) or (bool(mcur) and not mstate["p"] and all(k in cur_ins and not val for k, val in mcur.items())))
         if not failed and any(not (k in cur_ins and not val) for k, val in mcur.items()):
             mstate["p"] = True
         cur_ins = set(); mcur.clear()
@@ -316,7 +346,7 @@ def model_lines(case, ref, res=None):
                     L.append("OP\ttm\t=>\t%d" % (1 if t else 0))
         elif rejects:
             L.append("OP\tcomplete\t0")
-    for op in case["ops"]:
+    for opi, op in enumerate(case["ops"]):
         if op[0] in ("set", "insert"):
             L.append("OP\t%s\t%s\t%s" % (op[0], op[1], op[2]))
             mcur[op[1]] = op[2]
@@ -326,9 +356,9 @@ def model_lines(case, ref, res=None):
             L.append("OP\tdel\t%s" % op[1])
             mcur[op[1]] = ""
         elif op[0] == "flush":
-            fl(True)
+            fl(True, opi)
         elif op[0] == "flushnw":
-            fl(False)
+            fl(False, opi)
     if case["mode"] == "probe" or case["end"] == "commit":
         tms = []
         fl(True)
@@ -354,7 +384,7 @@ def audit(case, res, model, kind, v, stats):
     fails, corr, n = [], [], 0
     if res.get("panic"):
         fails.append(("harness-panic", res["panic"]))
-    ref = reference(case)
+    ref = reference(case, res)
     model_final, model_res, model_mism, model_served = model.get("final"), model.get("regions"), model.get("mismatch"), model.get("served")
     layout = res.get("regions") if kind == "mock" else res.get("region_splits")
     layout = case["splits"] if layout is None else layout
@@ -368,6 +398,13 @@ def audit(case, res, model, kind, v, stats):
         if bool(r.get("err")) != exp:
             fails.append(("C16_flush_error_fails_txn" if exp else "no-unexpected-error",
                           "op %d %s: %s" % (idx, op[0], ("expected an error (an earlier flush was rejected by the store), got none" if exp else "unexpected error " + str(r.get("err"))[:200]))))
+    # the executor reports the error of one of the refused batches; an assertion failure only if nothing else was refused
+    for idx, r in enumerate(res.get("results") or []):
+        if r.get("refused") and r.get("err") and case["ops"][idx][0] == "flush":
+            n += 1
+            only_assert = all(c == "assertion" for c in r["refused"])
+            if ("assertion failed" in r["err"]) != only_assert:
+                fails.append(("C16_batch_refusal_fails_flush/error-class", "op %d flush: batches refused with %s, reported error %s" % (idx, r["refused"], r["err"][:120])))
     if ref["enderr"] is not None:
         n += 1
         if bool(res.get("end_err")) != ref["enderr"]:
@@ -522,7 +559,7 @@ def run_model(modelrun, cases, results):
     """-> {id: {"final": (pstart, pend, flushedkeys, flog, primary), "regions": [...], "mismatch": [...], "served": bool}}"""
     lines = []
     for c in cases:
-        lines += model_lines(c, reference(c), results.get(c["id"]))
+        lines += model_lines(c, reference(c, results.get(c["id"])), results.get(c["id"]))
     rc, out = vlib.sh([modelrun], inp="\n".join(lines) + "\n", timeout=600)
     M = {c["id"]: {} for c in cases}
     for l in out.splitlines():
@@ -538,7 +575,7 @@ def run_model(modelrun, cases, results):
         if fin and fin[0] != "-" and fin[1] != "-":
             rl.append("R\t%s\t%s\t%s\t%s\t%s" % (c["id"], ",".join(res.get("regions") or c["splits"]) or "-", fin[0], fin[1], fin[2]))
         if fin and res.get("served"):
-            ref = reference(c)
+            ref = reference(c, res)
             flushed = sorted({k for g in ref["sent"] for k in ref["gens"][g]}) if c["mode"] == "txn" else sorted({o[1] for o in c["ops"] if o[0] == "set"})
             sv = ";".join("%s:%s" % (a or "-", "~" if b is None else b) for a, b in res["served"])
             if flushed:
@@ -571,7 +608,7 @@ def run(tier, seed, v, stats, robj):
         kinds = [robj["driver"].split("-")[-1]]
     else:
         n = {"quick": 420, "thorough": 1500}.get(tier, 420)
-        classes = ["single", "border", "rand", "grow", "probe", "regroup", "regroup", "dynresolve", "dynresolve", "insert", "primary", "crash", "bgetsplit", "bgetsplit", "flags"]
+        classes = ["single", "border", "rand", "grow", "probe", "regroup", "regroup", "dynresolve", "dynresolve", "insert", "primary", "crash", "bgetsplit", "bgetsplit", "flags", "refuse", "refuse"]
         cases = json.load(open(os.path.join(vlib.VERIF, "corpus", "C16", "directed_commit.json")))
         cases += [with_cancel(r, gen_case(r, "m%d-%d" % (seed, i), classes[i % len(classes)])) for i in range(n)]
         kinds = ["mock"] + (["uni"] if tier == "thorough" else [])
@@ -621,7 +658,7 @@ def run_unistore(tier, seed, v, stats, robj, r):
     if robj and robj.get("driver") == "pipelinedtxn-uni":
         cases = [robj["case"]]
     else:
-        classes = ["single", "border", "rand", "grow", "regroup", "regroup", "dynresolve", "insert", "primary", "crash", "bgetsplit", "flags"]
+        classes = ["single", "border", "rand", "grow", "regroup", "regroup", "dynresolve", "insert", "primary", "crash", "bgetsplit", "flags", "refuse"]
         cases = [with_cancel(r, gen_case(r, "u%d-%d" % (seed, i), classes[i % len(classes)], uni=True)) for i in range(330)]
         for c in cases:   # the unistore cluster handle offers no merge
             if c.get("resolve_changes"):
